@@ -593,7 +593,12 @@ class Program:
             v = self._vec_macro_value(fn, body, b, t["args"][0])
             if v is not None:
                 return v
-        return ("call", fn.path + ("#" + body.tag if body.tag else ""), b, callee, args)
+        fnp = fn.path + ("#" + body.tag if body.tag else "")
+        if isinstance(callee, str):
+            m = model_std_ctor(fnp, b, callee, args, fr)
+            if m is not None:
+                return m
+        return ("call", fnp, b, callee, args)
 
     def _vec_macro_value(self, fn, body, b, arg):
         """`vec![a, b, ..]` lowers to Box::new_uninit + a write of the array through a raw pointer +
@@ -819,3 +824,47 @@ def short_path(p):
         return "<%s as %s>::%s" % (m.group(1).split("::")[-1], m.group(2).split("::")[-1].split("<")[0], m.group(3))
     parts = p.split("::")
     return "::".join(parts[-2:]) if len(parts) > 2 else p
+
+
+# ---------------------------------------------------------------------------------------------------------------------------
+# cosmwasm-std convenience constructors, modelled as the aggregates they build (trusted base: their documented bodies are
+# one struct literal each).  The message rules then see `wasm_execute(..)?`, `coins(..)`, `x.into()` and
+# `SubMsg::reply_on_success(..)` exactly like the spelled-out literals.
+_MSG_WRAP = (("WasmMsg", "Wasm"), ("BankMsg", "Bank"), ("StakingMsg", "Staking"), ("DistributionMsg", "Distribution"),
+             ("IbcMsg", "Ibc"), ("GovMsg", "Gov"))
+
+
+def _wrap_cosmos(arg):
+    if arg[0] == "agg" and arg[1] == "adt":
+        for short, var in _MSG_WRAP:
+            if re.match(r"^cosmwasm_std::(\S*::)?%s::\w+$" % short, str(arg[2])):
+                return ("agg", "adt", "cosmwasm_std::CosmosMsg::%s" % var, ((0, arg),))
+    return arg
+
+
+def model_std_ctor(fnp, b, callee, args, fr):
+    g = generic_path(callee)
+    if re.match(r"^cosmwasm_std::(\S*::)?wasm_execute$", g) and len(args) == 3:
+        tb = ("call", fnp, b, "cosmwasm_std::to_binary", (args[1],))
+        agg = ("agg", "adt", "cosmwasm_std::WasmMsg::Execute", (("contract_addr", args[0]), ("msg", tb), ("funds", args[2])))
+        return ("agg", "adt", "std::result::Result::Ok", ((0, agg),))
+    if re.match(r"^cosmwasm_std::(\S*::)?coins?$", g) and len(args) == 2:
+        coin = ("agg", "adt", "cosmwasm_std::Coin", (("denom", args[1]), ("amount", args[0])))
+        return coin if g.endswith("::coin") else ("agg", "array", "vec", ((0, coin),))
+    if fr and fr.get("path") in ("std::convert::Into::into", "core::convert::Into::into", "std::convert::From::from", "core::convert::From::from") and len(args) == 1:
+        a = fr.get("args") or []
+        if len(a) == 2:
+            src, dst = (a[0], a[1]) if fr["path"].endswith("into") else (a[1], a[0])
+            if re.match(r"^cosmwasm_std::(\S*::)?CosmosMsg(<.*>)?$", dst):
+                for short, var in _MSG_WRAP:
+                    if re.match(r"^cosmwasm_std::(\S*::)?%s$" % short, src):
+                        return ("agg", "adt", "cosmwasm_std::CosmosMsg::%s" % var, ((0, args[0]),))
+    m = re.match(r"^cosmwasm_std::(\S*::)?SubMsg::(new|reply_on_success|reply_on_error|reply_always)$", g)
+    if m and len(args) in (1, 2):
+        kind = m.group(2)
+        rid = ("const", "int", 0) if kind == "new" else (args[1] if len(args) == 2 else None)
+        if rid is not None:
+            ro = {"new": "Never", "reply_on_success": "Success", "reply_on_error": "Error", "reply_always": "Always"}[kind]
+            return ("agg", "adt", "cosmwasm_std::SubMsg", (("id", rid), ("msg", _wrap_cosmos(args[0])), ("gas_limit", ("agg", "adt", "std::option::Option::None", ())),
+                                                            ("reply_on", ("agg", "adt", "cosmwasm_std::ReplyOn::%s" % ro, ()))))
+    return None
